@@ -8,6 +8,7 @@ import TemplVerif.Drive.C20
 import TemplVerif.Drive.C19
 import TemplVerif.Drive.C18
 import TemplVerif.Drive.C11
+import TemplVerif.Drive.C0809
 import Std.Data.HashMap
 open TemplVerif TemplVerif.Drive
 
@@ -22,6 +23,8 @@ def dispatch (ws : List String) : Verdict :=
   | "C19" :: rest => C19.handle rest
   | "C18" :: rest => C18.handle rest
   | "C11" :: rest => C11.handle rest
+  | "C08" :: rest => C0809.handleC08 rest
+  | "C09" :: rest => C0809.handleC09 rest
   | _ => .badOp
 
 structure Stats where
